@@ -301,4 +301,104 @@ theorem groups_all_or_none (cap esc : Bool) (e : Expr) (hwf : e.WF) :
     · exact (both_groups cap esc e).1 p hp
   · trivial
 
+/-! ## all or none, with counted graphemes -/
+
+theorem groupsAll_atoms (cap : Bool) (as : List Atom) : ∀ p ∈ as.map atomPat, Pat.GroupsAll cap p := by
+  intro p hp
+  obtain ⟨a, _, rfl⟩ := List.mem_map.mp hp
+  cases a <;> trivial
+
+mutual
+/-- the items the parser reads from a counted grapheme: every group carries the flag -/
+theorem gItems_groups (cap : Bool) : (g : Grapheme) → ∀ p ∈ gItems cap g, Pat.GroupsAll cap p
+  | .mk chars reps mn mx => by
+    intro p hp
+    simp only [gItems] at hp
+    split at hp
+    · exact groupsAll_atoms cap _ p hp
+    · simp only [List.mem_singleton] at hp
+      subst hp
+      show Pat.GroupsAll cap _
+      simp only [Pat.GroupsAll]
+      split
+      · split
+        · split
+          · rename_i a _; cases a <;> trivial
+          · trivial
+        · exact ⟨rfl, groupsAll_catList cap _ (groupsAll_atoms cap _)⟩
+      · exact ⟨rfl, groupsAll_catList cap _ (gItemsL_groups cap reps)⟩
+theorem gItemsL_groups (cap : Bool) : (gs : List Grapheme) → ∀ p ∈ gItemsL cap gs, Pat.GroupsAll cap p
+  | [] => by simp [gItemsL]
+  | g :: gs => by
+    intro p hp
+    simp only [gItemsL, List.mem_append] at hp
+    rcases hp with hp | hp
+    · exact gItems_groups cap g p hp
+    · exact gItemsL_groups cap gs p hp
+end
+
+mutual
+theorem bothR_groups (cap esc : Bool) : ∀ (e : Expr),
+    (∀ p ∈ (e.bothR cap esc).1, Pat.GroupsAll cap p) ∧ Pat.GroupsAll cap (e.bothR cap esc).2
+  | .lit c => by
+    have h := gItemsL_groups cap c
+    simp only [Expr.bothR]
+    exact ⟨h, groupsAll_catList cap _ h⟩
+  | .cls cs => by
+    have h : ∀ p ∈ [Spec.Pat.set (classItems cs) false], Pat.GroupsAll cap p := by
+      intro p hp; simp only [List.mem_singleton] at hp; subst hp; trivial
+    simp only [Expr.bothR]
+    exact ⟨h, groupsAll_catList cap _ h⟩
+  | .cat a b => by
+    have ia := bothR_groups cap esc a
+    have ib := bothR_groups cap esc b
+    have h : ∀ p ∈ subOf cap esc 2 a (a.bothR cap esc).1 (a.bothR cap esc).2 ++ subOf cap esc 2 b (b.bothR cap esc).1 (b.bothR cap esc).2,
+        Pat.GroupsAll cap p := by
+      intro p hp
+      simp only [List.mem_append] at hp
+      rcases hp with hp | hp
+      · exact groupsAll_subOf cap esc 2 a _ _ ia.1 ia.2 p hp
+      · exact groupsAll_subOf cap esc 2 b _ _ ib.1 ib.2 p hp
+    simp only [Expr.bothR]
+    exact ⟨h, groupsAll_catList cap _ h⟩
+  | .rep e q => by
+    have ie := bothR_groups cap esc e
+    have h := groupsAll_optOf cap _ (groupsAll_subOf cap esc 3 e _ _ ie.1 ie.2)
+    simp only [Expr.bothR]
+    exact ⟨h, groupsAll_catList cap _ h⟩
+  | .alt os => by
+    simp only [Expr.bothR]
+    exact ⟨by simp, groupsAll_altList cap _ (bothLR_groups cap esc os)⟩
+theorem bothLR_groups (cap esc : Bool) : ∀ (os : List Expr), ∀ p ∈ Expr.bothLR cap esc os, Pat.GroupsAll cap p
+  | [] => by simp [Expr.bothLR]
+  | o :: os => by
+    intro p hp
+    simp only [Expr.bothLR, List.mem_cons] at hp
+    rcases hp with rfl | hp
+    · exact groupsAll_catList cap _ (bothR_groups cap esc o).1
+    · exact bothLR_groups cap esc os p hp
+end
+
+/-- **C06 (all or none) with `-r`** in the pattern the regex parser builds from the text printed for an expression with counted graphemes —
+plainly or in verbose mode, any anchors — every group is capturing when capturing groups are requested and none is otherwise: the groups
+around counted units included -/
+theorem groups_all_or_none_with_repetitions (cap esc i ns ne : Bool) (e : Expr) (hwf : e.WFR) :
+    ∃ P, Spec.parse (fmtRegExp (cfgAnch cap esc ns ne) e) = some (⟨false, false⟩, P) ∧
+      Spec.parse (fmtRegExp (cfgVerb cap esc i ns ne) e) = some (⟨i, true⟩, P) ∧ Pat.GroupsAll cap P := by
+  refine ⟨_, parse_printedAR cap esc ns ne e hwf, parse_verboseR cap esc i ns ne e hwf, ?_⟩
+  apply groupsAll_catList
+  intro p hp
+  simp only [List.mem_append] at hp
+  rcases hp with hp | hp | hp
+  · unfold preA at hp; split at hp
+    · simp at hp
+    · simp only [List.mem_singleton] at hp; subst hp; trivial
+  · unfold topItemsR at hp
+    split at hp
+    · simp only [List.mem_singleton] at hp; subst hp; exact ⟨rfl, (bothR_groups cap esc e).2⟩
+    · exact (bothR_groups cap esc e).1 p hp
+  · unfold postA at hp; split at hp
+    · simp at hp
+    · simp only [List.mem_singleton] at hp; subst hp; trivial
+
 end Grexv.Props.C06
